@@ -92,9 +92,9 @@ Qed.
 
 (* what the checker's tie establishes about a dumped graph *)
 Lemma syntactic_tie_sound m addr len i g succ : syntactic_tie m addr len i g succ = true ->
-  mirror_instr m addr i = Some (Ok g) /\ succ = mirror_succ m addr len i.
+  mirror_instr m addr len i = Some (Ok g) /\ succ = mirror_succ m addr len i.
 Proof.
-  unfold syntactic_tie. destruct (mirror_instr m addr i) as [[g'| |]|]; intros H; try discriminate.
+  unfold syntactic_tie. destruct (mirror_instr m addr len i) as [[g'| |]|]; intros H; try discriminate.
   apply andb_prop in H as [H1 H2]. apply cfg_eqb_eq in H1. apply (list_eqb_eq _ succ_eqb_eq) in H2. subst. auto.
 Qed.
 
@@ -113,7 +113,7 @@ Qed.
 
 (* the checker's tie component for a mirrored case is exactly [syntactic_tie] *)
 Lemma ck_tie_is_syntactic_tie c g succ :
-  tc_lift c = LOk g succ -> tc_mirror c = mirror_instr (tc_mode c) (tc_addr c) (tc_ins c) ->
+  tc_lift c = LOk g succ -> tc_mirror c = mirror_instr (tc_mode c) (tc_addr c) (tc_len c) (tc_ins c) ->
   (exists r, tc_mirror c = Some r) -> fst (ck c) = true ->
   syntactic_tie (tc_mode c) (tc_addr c) (tc_len c) (tc_ins c) g succ = true.
 Proof.
